@@ -343,6 +343,7 @@ func c13R2(p *Prog, r *Report) {
 		// from the read, the dial is reachable only through the reslice
 		if reslice >= 0 {
 			reach := fc.G.ReachAfter(readCall.V, func(v *Vertex) bool { return v.ID == reslice }, nil)
+			r.Check(fc.SoleDef(reslice, cnt, readCall.V), rule, "service.(*TCPRelay).handleConn:count-is-the-reads", p.posStr(fc.G.V[reslice].Node.Pos()), "the count used for the reslice is the one returned by the read", "the count is modified between the read and the reslice: bytes taken from the client are dropped or padding is forwarded")
 			r.Check(!reach[dial.V], rule, "service.(*TCPRelay).handleConn:payload-resliced-to-count", p.posStr(fc.G.V[reslice].Node.Pos()), "every path from the read to DialStream passes req.Payload = req.Payload[:count]", "a path from the wait read to DialStream skips the reslice: the whole zero-filled wait buffer (or none of the bytes read) is forwarded")
 		} else {
 			r.Fail(rule, "service.(*TCPRelay).handleConn:payload-resliced-to-count", readCall.Pos(), "the payload is never resliced to the count actually read")
